@@ -743,10 +743,23 @@ func (p *Peer) retryDoc(ctx context.Context, peerIDString string, docID string) 
 		if err != nil {
 			return err
 		}
+		// The block only knows about its schema version, the receiver expects the ID of the collection.
+		cols, err := clientTxn.GetCollections(
+			ctx,
+			client.CollectionFetchOptions{
+				VersionID: immutable.Some(head.block.Delta.GetSchemaVersionID()),
+			},
+		)
+		if err != nil {
+			return err
+		}
+		if len(cols) == 0 {
+			return client.NewErrCollectionNotFoundForCollectionVersion(head.block.Delta.GetSchemaVersionID())
+		}
 		updateEvent := event.Update{
 			DocID:        docID,
 			Cid:          head.cid,
-			CollectionID: head.block.Delta.GetSchemaVersionID(),
+			CollectionID: cols[0].Version().CollectionID,
 			Block:        rawblock,
 			IsRetry:      true,
 		}
